@@ -46,7 +46,7 @@ func (g *CPGen) Get(l LogCfg, b *uni.Branch, n int, shape string) ([]byte, Meta)
 	u := g.U
 	var ext []string
 	if shape == "ext" {
-		ext = []string{"extension line one", "ext2 " + b.Name}
+		ext = []string{"extension line one 100%sure %d %25", "ext2 " + b.Name + " \u2014 caf\u00e9"}
 	}
 	text := uni.Body(l.Origin, uint64(n), b.Root(n), ext...)
 	cp := u.Sign(text, l.Key.Signer)
